@@ -171,6 +171,11 @@ def build_lpconvert(defs=None):
 # ------------------------------------------------------------------------------------------------
 def coq_prepare():
     """Regenerate Gen/Consts.v from /repo, _CoqProject and Makefile. Returns translator problems."""
+    with Lock('coq'):
+        return _coq_prepare()
+
+
+def _coq_prepare():
     problems = gen_consts.generate(REPO, os.path.join(COQ, 'Gen', 'Consts.v'), os.path.join(BUILD, 'consts.json'))
     vs = sorted(os.path.relpath(p, COQ) for p in glob.glob(os.path.join(COQ, '**', '*.v'), recursive=True))
     proj = '-Q . V\n-arg -w -arg -notation-overridden,-deprecated-hint-without-locality,-deprecated-instance-without-locality\n' + '\n'.join(vs) + '\n'
